@@ -172,6 +172,52 @@ def check_C05(ctx: Ctx) -> None:
                 ctx.fail("writer/reader lookup mismatch", dict(rule=rule, size=size, keys=keys, response=line))
     # TermEncoder -> Decoder level (IRIs and literals through the real term encoder / decoder)
     _c05_term_level(ctx, r)
+    _c05_stream_level(ctx, r)
+
+
+def _c05_stream_level(ctx: Ctx, r) -> None:
+    """Writer tables advanced through the Stream API (graph starts of EMPTY graphs, namespace declarations, statements)
+    against the real reader: every row that changed a writer table must reach the reader."""
+    reqs, resp = [], []
+    for _ in range(ctx.n(150, 1500)):
+        pn, pp, pd = r.choice([(8, 1, 1), (8, 2, 2), (8, 3, 1), (9, 4, 2), (16, 8, 8)])
+        o = Opts(fs=r.choice([1, 3, 250]), lt=0, gen=True, star=True, delim=True, ns=True, pn=pn, pp=pp, pd=pd)
+        g = gen.G(r, typed=True, n_prefixes=r.choice([2, 4, 6]), n_names=r.choice([3, 6]))
+        ops, want = [("enroll",)], []
+        for _ in range(r.randint(2, 8)):
+            k = r.random()
+            if k < 0.25:
+                ops.append(("ns", r.choice(["a", "b", ""]), g.iri()._iri))
+                want.append("N")
+            else:
+                gid = r.choice([g.iri(), g.iri(), g.bnode(), DefaultGraph])
+                triples = [tuple(t) for t in gen_fitting(r, "T", o, r.choice([0, 0, 1, 2]))]
+                if not gen.fits([(gid,)] if gid is not DefaultGraph else [], pn, pp, pd):
+                    continue
+                ops.append(("g", gid, triples))
+                want += ["S" + stmt_text(gen.normalize_stmt(Quad(*t, gid))) for t in triples]
+            if r.random() < 0.3:
+                ops.append(("flush",))
+        ops.append(("flush",))
+        line = impl.run_step("G", o, ops)
+        reqs.append(f"step G {o.token()} " + " ".join(impl.step_op_token(op) for op in ops))
+        resp.append(line)
+        ctx.case(("stream-level", reqs[-1]), True)
+        ctx.dist["stream_level_histories"] += 1
+        if "!" in line:
+            continue
+        frames = b"".join(bytes.fromhex(f[1:]) for t in line.split(" ")[:-1] for f in t.split("+") if f.startswith("F"))
+        got = impl.run_par("flat", False, "seek", frames)
+        got_st = [e for e in got.split(" ")[:-1] if e.startswith("S")]
+        if not got.endswith(" end") or got_st != [w for w in want if w != "N"]:
+            ctx.fail("reader out of step with the writer after graph starts / declarations", dict(request=reqs[-1], got=got[:1500], want=want[:20]))
+    model = [m.replace("~", "") for m in __import__("common").run_driver(reqs)]
+    for q, a, m in zip(reqs, resp, model):
+        ctx.corr_checked += 1
+        if a != m:
+            ctx.dist["disagree:SERSTEP"] += 1
+            if len(ctx.disagreements) < 20:
+                ctx.disagreements.append(dict(suite="SERSTEP", request=q[:4000], impl=a[:4000], model=m[:4000]))
 
 
 def _c05_term_level(ctx: Ctx, r) -> None:
@@ -198,9 +244,12 @@ def _c05_term_level(ctx: Ctx, r) -> None:
                 msg = jelly.RdfLiteral()
                 rows = enc.encode_literal(lex=t._lex, language=t._langtag, datatype=t._datatype, literal=msg)
                 hist.append((t._lex, t._langtag, t._datatype))
-            for row in rows:
-                dec.decode_row(getattr(row, row.WhichOneof("row")))
-            got = dec.decode_term(msg)
+            try:
+                for row in rows:
+                    dec.decode_row(getattr(row, row.WhichOneof("row")))
+                got = dec.decode_term(msg)
+            except Exception as e:  # noqa: BLE001
+                got = e
             if got != gen.normalize_term(t):
                 ok = False
                 break
@@ -455,6 +504,28 @@ def check_C04(ctx: Ctx) -> None:
                      dict(bytes=b.hex(), cfg=s["cfg"], got=flat[:2000], want=s["events_text"][:2000]))
     ctx.corr("PARSE", reqs, resp)
     ctx.extra["reference_encoder_choices"] = dict(stats)
+    # the same streams consumed by several parsers that are alive at the same time (generators advanced in turns)
+    from pyjelly.integrations.generic.parse import parse_jelly_flat
+    for k in range(0, len(streams) - 2, 3):
+        trio = streams[k:k + 3]
+        gens = [parse_jelly_flat(io.BytesIO(s["bytes"])) for s in trio]
+        outs = [[] for _ in trio]
+        live = list(range(len(trio)))
+        err = None
+        while live:
+            j = r.choice(live)
+            try:
+                outs[j].append(next(gens[j]))
+            except StopIteration:
+                live.remove(j)
+            except Exception as e:  # noqa: BLE001
+                err = (j, e)
+                live.remove(j)
+        ctx.dist["interleaved_parses"] += 1
+        for j, s in enumerate(trio):
+            if events_text(outs[j]) != s["events_text"] or (err and err[0] == j):
+                ctx.fail("a valid stream parsed while other parsers were active does not yield its denotation",
+                         dict(bytes=s["bytes"].hex(), others=[x["bytes"].hex() for x in trio if x is not s], got=events_text(outs[j])[:1500], want=s["events_text"][:1500]))
 
 
 def check_C16(ctx: Ctx) -> None:
@@ -528,7 +599,12 @@ def check_C06(ctx: Ctx) -> None:
         o.flow = flow
         stmts = gen_fitting(r, cls, o, r.randint(1, 9))
         is_sink = r.random() < 0.5
-        data = mk_sink(stmts) if is_sink else stmts
+        bindings = []
+        if is_sink and r.random() < 0.4:
+            o.ns = True
+            gg = gen.G(r)
+            bindings = [(f"p{j}", gg.iri()) for j in range(r.randint(1, 4))]
+        data = mk_sink(stmts, bindings) if is_sink else stmts
         tok = ("sink:" + sink_arg(data)) if is_sink else ("gen:" + stmts_text(stmts))
         line, b = impl.run_ser_frames(cls, o, data, is_sink=is_sink)
         reqs.append(f"ser {cls} frames {o.token()} {tok}")
@@ -567,12 +643,47 @@ def check_C06(ctx: Ctx) -> None:
             eff = "Q" if ((o.lt % 10) != 3 and cls != "T") else "T"
         want = expected_events(stmts, "T" if (eff == "T") else "Q")
         try:
-            got = real_parse_flat(b)
+            got = [e for e in real_parse_flat(b) if not hasattr(e, "prefix")]
         except Exception as e:  # noqa: BLE001
             ctx.fail(f"written bytes do not parse back: {type(e).__name__}", dict(request=req, written=len(b)))
             continue
         if [stmt_text(x) for x in got] != [stmt_text(x) for x in want]:
             ctx.fail("written bytes parse back to something else", dict(request=req, got=events_text(got)[:1500], want=events_text(want)[:1500]))
+    # ONE SerializerOptions object used for two serializations that are alive at the same time
+    from pyjelly.integrations.generic import serialize as gser
+    for _ in range(ctx.n(60, 600)):
+        cls = r.choice("TQ")
+        o = Opts(fs=r.choice([2, 3, 7, 250]), lt=r.choice([0, {"T": 1, "Q": 2}[cls]]), gen=True, star=True, delim=True, pn=16, pp=8, pd=8)
+        a_st, b_st = gen_fitting(r, cls, o, r.randint(2, 7)), gen_fitting(r, cls, o, r.randint(2, 7))
+        shared = o.real()
+        try:
+            sa = impl.STREAMS[cls](encoder=gser.GenericSinkTermEncoder(lookup_preset=shared.lookup_preset), options=shared)
+            sb = impl.STREAMS[cls](encoder=gser.GenericSinkTermEncoder(lookup_preset=shared.lookup_preset), options=shared)
+        except Exception:  # noqa: BLE001
+            continue
+        ga, gb = gser.stream_frames(sa, (x for x in a_st)), gser.stream_frames(sb, (x for x in b_st))
+        fa, fb, live = [], [], [0, 1]
+        try:
+            while live:
+                j = r.choice(live)
+                try:
+                    (fa if j == 0 else fb).append(next(ga if j == 0 else gb))
+                except StopIteration:
+                    live.remove(j)
+        except Exception as e:  # noqa: BLE001
+            ctx.fail(f"two streams built from one options object: {type(e).__name__}", dict(opts=o.describe()))
+            continue
+        ctx.case(("shared-options", cls, o.token(), stmts_text(a_st), stmts_text(b_st)), True)
+        ctx.dist["shared_options_pairs"] += 1
+        for st, fr, stream in ((a_st, fa, sa), (b_st, fb, sb)):
+            try:
+                got = real_parse_flat(impl.frames_bytes(fr, True))
+            except Exception as e:  # noqa: BLE001
+                got = None
+            want = expected_events(st, cls)
+            if len(stream.flow) or got is None or [stmt_text(x) for x in got] != [stmt_text(x) for x in want]:
+                ctx.fail("statements handed to one stream are missing from its output when another stream built from the same options object is active",
+                         dict(opts=o.describe(), statements=stmts_text(st), left=len(stream.flow)))
     # rdflib entry points: Graph.serialize through the plugin (explicit stream of every class, inferred and explicit
     # flows, both framings), rdflib flat_/grouped_stream_to_file
     _c06_rdflib(ctx, r)
@@ -583,9 +694,13 @@ def check_C06(ctx: Ctx) -> None:
         stmts = gen_fitting(r, cls, o, r.randint(1, 9))
         sink = mk_sink(stmts)
         out = io.BytesIO()
-        sink.serialize(out)
-        back = GenericStatementSink()
-        back.parse(io.BytesIO(out.getvalue()))
+        try:
+            sink.serialize(out)
+            back = GenericStatementSink()
+            back.parse(io.BytesIO(out.getvalue()))
+        except Exception as e:  # noqa: BLE001
+            ctx.fail(f"sink.serialize/sink.parse raised {type(e).__name__}", dict(statements=stmts_text(stmts)))
+            continue
         ctx.case(("sink.serialize", stmts_text(stmts)), True)
         ctx.dist["sink.serialize"] += 1
         want = expected_events(stmts, cls)
@@ -726,6 +841,33 @@ def check_C07(ctx: Ctx) -> None:
                 reqs.append(f"par flat 0 1 seek {b.hex()}")
                 resp.append(flat)
     ctx.corr("PARSE", reqs, resp)
+    # (b, rdflib) one Graph/Dataset per frame with exactly that frame's statements, for frame cuts inside a graph run
+    import rimpl
+    for i in range(ctx.n(80, 800)):
+        g = gen.G(r, star=False, generalized=False, case_langs=False)
+        g.bnode = lambda: BlankNode(r.choice(["b0", "b1", "n1"]))
+        s = refenc.build_valid_stream(r, g, n_stmts=r.randint(2, 8), physical=r.choice([1, 2, 2, 3, 3]))
+        frames = refenc.cut_frames(r, s["rows"], cuts=sorted(r.sample(range(1, len(s["rows"])), min(len(s["rows"]) - 1, r.randint(1, 4)))) if len(s["rows"]) > 1 else [],
+                                   repeat_options_prob=0.0, empty_prob=0.1, metadata_prob=0.0)
+        b = refenc.frames_to_bytes(frames, True)
+        gen_grouped = impl.run_par("grouped", False, "seek", b)
+        if not gen_grouped.endswith(" end"):
+            continue
+        per_frame = [sorted(set(st for st in sk[1:-1].split("|", 1)[1].split("/") if st)) for sk in gen_grouped.rsplit(" ", 1)[0].split(" ") if sk]
+        if any(t == "I" for fr in per_frame for st in fr for t in st.split(",")):
+            continue  # rdflib cannot name a graph by the empty IRI (it substitutes a fresh blank node): not pyjelly's doing
+        sinks, err = [], None
+        try:
+            from pyjelly.integrations.rdflib.parse import parse_jelly_grouped as rgrouped
+            for sk in rgrouped(io.BytesIO(b)):
+                sinks.append(rimpl.store_quads(sk))  # contents at the moment the sink is yielded
+        except Exception as e:  # noqa: BLE001
+            err = type(e).__name__
+        ctx.case(("rdflib-grouped", b.hex()), True)
+        ctx.dist["rdflib_grouped_streams"] += 1
+        if err or [sorted(set(x)) for x in sinks] != per_frame:
+            ctx.fail(f"rdflib grouped parse: per-frame contents differ from the frames' statements ({err})",
+                     dict(bytes=b.hex(), got=[x[:3] for x in sinks][:6], want=[x[:3] for x in per_frame][:6]))
     # (c)/(d) grouped serialization with a grouped logical type: one frame per non-empty sink, state carried over
     reqs, resp = [], []
     for _ in range(ctx.n(150, 1500)):
@@ -751,7 +893,11 @@ def check_C07(ctx: Ctx) -> None:
         if len(shape) != nonempty:
             ctx.fail(f"{len(shape)} frames written for {nonempty} non-empty sinks", dict(request=reqs[-1]))
         want = expected_events([st for p in parts for st in p], cls)
-        got = real_parse_flat(b)
+        try:
+            got = real_parse_flat(b)
+        except Exception as e:  # noqa: BLE001
+            ctx.fail(f"grouped serialization with a shared stream does not parse back: {type(e).__name__}", dict(request=reqs[-1]))
+            continue
         if [stmt_text(x) for x in got] != [stmt_text(x) for x in want]:
             ctx.fail("grouped serialization with a shared stream does not round-trip", dict(request=reqs[-1]))
     ctx.corr("SER", reqs, resp)
@@ -885,6 +1031,19 @@ def check_C09(ctx: Ctx) -> None:
                 if got != base:
                     sig = "C09-short-first-read" if (sched[0] < 3 and len(b) >= 3 and s["delimited"]) else None
                     ctx.fail("result depends on read chunking", dict(bytes=b.hex(), schedule=sched[:10], got=got[:500], want=base[:500]), known=sig)
+            # a non-seekable source that is itself buffered (pipe / socket file object) over the same schedules
+            for sched in scheds:
+                src = io.BufferedReader(impl.RawSource(b, list(sched), default=r.choice([1, 3, 4096])))
+                evs, err = [], None
+                try:
+                    for ev in parse_jelly_flat(src):
+                        evs.append(ev)
+                except Exception as e:  # noqa: BLE001
+                    err = e
+                got = events_text(evs) + " " + ("end" if err is None else "!" + type(err).__name__)
+                ctx.dist["buffered_nonseekable"] += 1
+                if got != base:
+                    ctx.fail("result from a buffered non-seekable source depends on read chunking", dict(bytes=b.hex(), schedule=sched[:10], got=got[:500], want=base[:500]))
             # model: first raw read of n bytes
             for n in (1, 2, 3, 8):
                 reqs.append(f"par flat 0 1 raw:{n} {b.hex()}")
@@ -996,6 +1155,26 @@ def check_C13(ctx: Ctx) -> None:
             if o.pn > 4096 and opt_line.startswith("pt="):
                 sig = None
             ctx.fail("header read back differs from the options written", dict(request=reqs[-2], got=opt_line, want=want), known=sig)
+    # whatever version= the caller passes (also via dataclasses.replace on existing parameters), the header declares
+    # version 2 exactly when namespace declarations are enabled
+    import dataclasses
+    from pyjelly.options import StreamParameters
+    from pyjelly.serialize.streams import SerializerOptions, TripleStream
+    from pyjelly.integrations.generic.serialize import GenericSinkTermEncoder, stream_frames as g_stream_frames
+    for ver in (0, 1, 2, 3, 7):
+        for nd in (False, True):
+            for via_replace in (False, True):
+                p = dataclasses.replace(StreamParameters(version=ver), namespace_declarations=nd) if via_replace else StreamParameters(version=ver, namespace_declarations=nd)
+                so = SerializerOptions(params=p)
+                st = TripleStream(encoder=GenericSinkTermEncoder(lookup_preset=so.lookup_preset), options=so)
+                sink = mk_sink([Triple(IRI("http://v/s"), IRI("http://v/p"), Literal("o"))], [("ex", IRI("http://v/"))])
+                b = impl.frames_bytes(list(g_stream_frames(st, sink)), True)
+                opt_line = impl.run_par("options", False, "seek", b)
+                ctx.case(("version", ver, nd, via_replace), True)
+                want_v = 2 if nd else 1
+                if f" v={want_v} " not in opt_line or f"nd={'true' if nd else 'false'}" not in opt_line:
+                    ctx.fail(f"StreamParameters(version={ver}, namespace_declarations={nd}){' via replace' if via_replace else ''}: header says {opt_line}",
+                             dict(bytes=b.hex(), version=ver, namespace_declarations=nd))
     # strict gates over all 8 logical types x {flat, grouped} parser, reading streams with each logical type
     for lt in gen.LOGICAL:
         for phys in (1, 2, 3):
@@ -1207,13 +1386,24 @@ def _c12_workload(seed: int, n: int = 12):
     out = []
     for _ in range(n):
         cls = r.choice("TQG")
-        o = rand_opts(r, cls, ns=False)
+        o = rand_opts(r, cls, ns=r.random() < 0.4)
         out.append((cls, o, gen_fitting(r, cls, o, r.randint(1, 12))))
     return out
 
 
+def _c12_data(cls, o, stmts):
+    """Sink input with several bindings when declarations are on (their order must not depend on hashing)."""
+    if not o.ns:
+        return stmts, False
+    return mk_sink(stmts, [(p, IRI(f"http://ns{j}.example/{p}#")) for j, p in enumerate(["zeta", "a", "mid", "b2", "", "x9"])]), True
+
+
 def _c12_bytes(work) -> list[bytes]:
-    return [impl.run_ser_frames(cls, o, stmts, is_sink=False)[1] or b"" for cls, o, stmts in work]
+    out = []
+    for cls, o, stmts in work:
+        data, is_sink = _c12_data(cls, o, stmts)
+        out.append(impl.run_ser_frames(cls, o, data, is_sink=is_sink)[1] or b"")
+    return out
 
 
 def check_C12(ctx: Ctx) -> None:
@@ -1230,8 +1420,11 @@ def check_C12(ctx: Ctx) -> None:
     # (0) model = pure function: real bytes equal the model's bytes under every condition below
     work = _c12_workload(ctx.seed, ctx.n(16, 60))
     alone = _c12_bytes(work)
-    reqs = [f"ser {cls} frames {o.token()} gen:{stmts_text(st)}" for cls, o, st in work]
-    resp_alone = [impl.run_ser_frames(cls, o, st, is_sink=False)[0] for cls, o, st in work]
+    reqs, resp_alone = [], []
+    for cls, o, st in work:
+        data, is_sink = _c12_data(cls, o, st)
+        reqs.append(f"ser {cls} frames {o.token()} " + (("sink:" + sink_arg(data)) if is_sink else ("gen:" + stmts_text(st))))
+        resp_alone.append(impl.run_ser_frames(cls, o, data, is_sink=is_sink)[0])
     ctx.corr("SER", reqs, resp_alone)
     for (cls, o, st), b in zip(work, alone):
         ctx.case((cls, o.token(), stmts_text(st)), True, sample=dict(cls=cls, opts=o.describe(), nbytes=len(b)))
@@ -1257,7 +1450,8 @@ def check_C12(ctx: Ctx) -> None:
                 s, _ = impl.make_stream(cls, o)
             except Exception:  # noqa: BLE001
                 continue
-            gens[("ser", i)] = gser.stream_frames(s, (x for x in st))
+            data, is_sink = _c12_data(cls, o, st)
+            gens[("ser", i)] = gser.stream_frames(s, data if is_sink else (x for x in st))
             outs[("ser", i)] = []
             if alone[i] and o.delim:
                 gens[("par", i)] = parse_jelly_flat(io.BytesIO(alone[i]))
@@ -1612,12 +1806,33 @@ def _hostile(r) -> bytes:
         pre = jelly.RdfStreamFrame(rows=[opt]).SerializeToString()
         return _varint(len(pre) + len(body)) + pre + body
     if k == 7:  # entry ids near 2^32, references near 2^32
-        rows = [opt, jelly.RdfStreamRow(name=jelly.RdfNameEntry(id=r.choice([2**32 - 1, 2**31, 9]), value="x")),
+        rows = [opt, jelly.RdfStreamRow(name=jelly.RdfNameEntry(id=r.choice([2**32 - 1, 2**31, 9, 10**6, 4 * 10**6, 10**7]), value="x")),
                 jelly.RdfStreamRow(triple=jelly.RdfTriple(s_iri=jelly.RdfIri(name_id=2**32 - 1, prefix_id=2**32 - 1), p_bnode="b", o_bnode="c"))]
         return refenc.frames_to_bytes([jelly.RdfStreamFrame(rows=rows[: r.randint(1, 3)])], True)
     # unknown fields / groups / wrong wire types
     junk = bytes([r.choice([0x0b, 0x0c, 0x13, 0x1b, 0x08, 0x0d, 0x09, 0x7a, 0x0a])]) + bytes([r.randint(0, 255) for _ in range(r.randint(0, 12))])
     return _varint(len(junk)) + junk
+
+
+def _declares_huge_frame(b: bytes) -> bool:
+    """Walk the length prefixes: does some frame declare far more bytes than the input has left?"""
+    pos = 0
+    while pos < len(b):
+        n, shift, k = 0, 0, pos
+        while k < len(b) and k - pos < 10:
+            n |= (b[k] & 0x7F) << shift
+            shift += 7
+            k += 1
+            if not b[k - 1] & 0x80:
+                break
+        else:
+            return False
+        if n > (len(b) - k) + (1 << 24):
+            return True
+        if n > len(b) - k:
+            return False
+        pos = k + n
+    return False
 
 
 def check_C17(ctx: Ctx) -> None:
@@ -1655,7 +1870,7 @@ def check_C17(ctx: Ctx) -> None:
         else:
             b = _hostile(r)
             kind = "hostile"
-        inputs.append((kind, r.choice(["flat", "flat", "grouped"]), b))
+        inputs.append((kind, r.choice(["flat", "flat", "grouped"]) + ":" + r.choice(["seek", "seek", "raw:1", "raw:2", "raw:3", "raw:4096"]), b))
     # real code in a watchdogged subprocess with an address-space cap
     cap = 3 << 30
     payload = "".join(f"{e} {b.hex()}\n" for _, e, b in inputs)
@@ -1681,14 +1896,29 @@ def check_C17(ctx: Ctx) -> None:
         ctx.dist[f"kind:{kind}"] += 1
         oc = out.rsplit(" ", 1)[-1]
         ctx.dist["outcome:" + (oc if oc.startswith("!") or oc in ("end", "HANG") else "end")] += 1
+        raw = ":raw" in entry
+        if raw and (out.endswith("!MemoryError") or (rss - base_rss > 48_000 + 40 * len(b) // 1024)) and _declares_huge_frame(b):
+            # BufferedReader.read(size) allocates the DECLARED frame length up front (parse_length_prefixed)
+            ctx.fail(f"non-seekable source: allocation proportional to a declared frame length ({out[-14:]}, +{(rss - base_rss) // 1024} MB)",
+                     dict(entry=entry, bytes=b.hex()[:400]), known="C17-declared-frame-length")
+            base_rss = max(base_rss, rss)
+            continue
         if out == "HANG" or ms > 5000:
             ctx.fail(f"parser did not terminate promptly ({ms} ms)", dict(entry=entry, bytes=b.hex()))
         elif out.startswith("!!") or out == "!MemoryError":
             ctx.fail(f"parser ended with {out}", dict(entry=entry, bytes=b.hex()))
-        elif rss - base_rss > 400_000:
-            ctx.fail(f"peak RSS grew by {(rss - base_rss) // 1024} MB", dict(entry=entry, bytes=b.hex()))
+        elif rss - base_rss > 48_000 + 40 * len(b) // 1024:
+            ctx.fail(f"peak RSS grew by {(rss - base_rss) // 1024} MB while parsing {len(b)} bytes", dict(entry=entry, bytes=b.hex()[:4000]))
             base_rss = rss
-        reqs.append(f"par {entry} 0 1 seek {b.hex()}" if b else f"par {entry} 0 1 seek")
+        else:
+            base_rss = max(base_rss, rss)
+        e_name, e_src = entry.split(":", 1)
+        if raw and _declares_huge_frame(b):
+            # BufferedReader.read(n) for n near 2^63 raises OverflowError / tries to allocate: the byte-source model has no
+            # notion of allocation, so these inputs are compared for no-crash/no-hang only
+            ctx.dist["out_of_model:huge_length_on_nonseekable"] += 1
+            continue
+        reqs.append(f"par {e_name} 0 1 {e_src} {b.hex()}" if b else f"par {e_name} 0 1 {e_src}")
         resp.append(out)
     ctx.extra["peak_rss_kb"] = max([int(line.rsplit("\t", 2)[1]) for line in lines] or [0])
     ctx.corr("PARSE", reqs, resp)
@@ -1709,7 +1939,8 @@ def _norm_text(t: str) -> str:
 def _rdf11_statements(r, cls: str, o: Opts, n: int):
     import rimpl
 
-    g = gen.G(r, star=False, generalized=False, typed=o.pd != 0, n_prefixes=r.choice([2, 4, 6]), n_names=r.choice([3, 6, 12]))
+    g = gen.G(r, star=False, generalized=False, typed=o.pd != 0, n_prefixes=r.choice([2, 4, 6]), n_names=r.choice([3, 6, 12]),
+              case_langs=False)
     out, prev, tries = [], None, 0
     while len(out) < n and tries < 30 * n + 30:
         tries += 1
@@ -1862,7 +2093,11 @@ def check_C14(ctx: Ctx) -> None:
                 ctx.fail("sink.namespaces after parse differ from the bindings", dict(request=reqs[-2]))
             o.ns = True
             line2, b2 = impl.run_ser_frames(cls, o, back, is_sink=True)
-            evs2 = real_parse_flat(b2) if b2 else []
+            try:
+                evs2 = real_parse_flat(b2) if b2 else []
+            except Exception as e:  # noqa: BLE001
+                ctx.fail(f"re-serialised stream does not parse back: {type(e).__name__}", dict(request=reqs[-2]))
+                continue
             if [(e.prefix, term_text(e.iri)) for e in evs2 if isinstance(e, Prefix)] != [(p, term_text(i)) for p, i in want_ns]:
                 ctx.fail("re-serialising what was read does not reproduce the declarations", dict(request=reqs[-2]))
             spec_reqs.append(spec_line(out[True][1], o.delim))
@@ -1973,7 +2208,7 @@ def check_C15(ctx: Ctx) -> None:
     for i in range(ctx.n(200, 2000)):
         # RDF 1.1 valid streams from the reference encoder and from pyjelly
         if r.random() < 0.6:
-            g = gen.G(r, star=False, generalized=False)
+            g = gen.G(r, star=False, generalized=False, case_langs=False)
             g.bnode = lambda: BlankNode(r.choice(["b0", "b1", "n1"]))  # rdflib-safe labels
             s = refenc.build_valid_stream(r, g, n_stmts=r.randint(0, 8))
             b = s["bytes"]
@@ -2001,7 +2236,8 @@ def check_C15(ctx: Ctx) -> None:
         # (b) across integrations, term for term
         if rflat != gflat:
             ctx.fail("rdflib and generic flat parsers disagree", dict(bytes=b.hex(), rdflib=rflat[:1500], generic=gflat[:1500]))
-        if gflat.endswith(" end"):
+        empty_graph_iri = any(e.startswith("S") and len(e.split(",")) == 4 and e.split(",")[3] == "I" for e in gflat.split(" "))
+        if gflat.endswith(" end") and not empty_graph_iri:  # rdflib cannot name a graph by the empty IRI
             sinks, err = rimpl.run_par_grouped(False, "seek", b)
             store, err2 = rimpl.run_par_graph("seek", b)
             want = sorted(set(e[1:] for e in gflat.split(" ")[:-1] if e.startswith("S")))
